@@ -904,7 +904,7 @@ def unbroadcast_f(target, f):
 
 def unbroadcast_einsum(x, target_meta, subscript):
     if Ellipsis not in subscript:
-        return x
+        return unbroadcast(x, target_meta)
     elif subscript[0] == Ellipsis:
         return unbroadcast(x, target_meta, 0)
     elif subscript[-1] == Ellipsis:
